@@ -17,6 +17,8 @@ A missing anchor is a broken tie: the list then lacks that fact and the lock lem
   BF_ImageAbs            image abs box = actual_size rect (0,0) .transform(parent.abs * image_ts)
   BF_GroupAbs            convert_group: abs_transform = parent.abs_transform.pre_concat(transform)
   BF_UseChildrenAbs      use_node::convert_children: parent.abs_transform temporarily pre_concat(transform), g.transform = transform
+  BF_BackgroundAbs       convert_doc / background_path: the background rectangle is built by Path::new with root_ts as abs_transform
+  BF_NewSimpleClipOnly   Path::new_simple (identity abs_transform) is called only for the clip rectangles of image.rs, marker.rs, use_node.rs
   BF_NodeLayerBox        Node::abs_layer_bounding_box: group -> Some(abs_layer), others abs_bounding_box().to_non_zero_rect()
   BF_RenderNodeNone      render_node: `let bbox = node.abs_layer_bounding_box()?;`
   BF_RenderNodeTs        render_node: pre_translate(-bbox.x(), -bbox.y()) then pre_concat(parent abs transform)
@@ -67,6 +69,10 @@ FACTS = [
     ('BF_GroupAbs', CONV, r"let abs_transform = parent\.abs_transform\.pre_concat\(transform\);"),
     ('BF_UseChildrenAbs', USE, r"let old_abs_transform = parent\.abs_transform; parent\.abs_transform = parent\.abs_transform\.pre_concat\(transform\);.*"
                                r"g\.transform = transform; parent\.children\.push\(Node::Group\(Box::new\(g\)\)\); \} parent\.abs_transform = old_abs_transform;"),
+    ('BF_BackgroundAbs', CONV, r"background_path\(background_color, view_box\.rect\.to_rect\(\), root_ts\).*g\.transform = root_ts; g\.abs_transform = root_ts;.*"
+                               r"fn background_path\( background_color: svgtypes::Color, area: Rect, abs_transform: Transform, \) -> Option<Path> \{.*"
+                               r"Path::new\( String::new\(\), true, Some\(fill\), None, PaintOrder::default\(\), ShapeRendering::default\(\), "
+                               r"Arc::new\(path\), abs_transform, \) \}"),
     ('BF_NodeLayerBox', TREE, r"pub fn abs_layer_bounding_box\(&self\) -> Option<NonZeroRect> \{ match self \{ "
                               r"Node::Group\(ref group\) => Some\(group\.abs_layer_bounding_box\(\)\), "
                               r"Node::Path\(ref path\) => path\.abs_bounding_box\(\)\.to_non_zero_rect\(\), "
@@ -98,7 +104,27 @@ def generate(api):
                 api.broken('table', 'BBoxTables.' + name, PROPS, "anchor not found in %s" % rel)
         except OSError as e:
             api.broken('table', 'BBoxTables.' + name, PROPS, e)
-    names = [n for n, _, _ in FACTS]
+    # Path::new_simple call sites
+    try:
+        import os
+        sites = []
+        for rel in ('crates/usvg/src/parser/converter.rs', 'crates/usvg/src/parser/image.rs', 'crates/usvg/src/parser/marker.rs',
+                    'crates/usvg/src/parser/use_node.rs', 'crates/usvg/src/parser/shapes.rs', 'crates/usvg/src/parser/text.rs',
+                    'crates/usvg/src/parser/paint_server.rs', 'crates/usvg/src/parser/clippath.rs', 'crates/usvg/src/parser/mask.rs',
+                    'crates/usvg/src/text/mod.rs', 'crates/usvg/src/text/flatten.rs'):
+            try:
+                n = len(re.findall(r"Path::new_simple\(", api.rd(rel)))
+            except OSError:
+                n = 0
+            if n:
+                sites.append((rel.split('/')[-1], n))
+        if sorted(sites) == [('image.rs', 1), ('marker.rs', 1), ('use_node.rs', 1)]:
+            found.append('BF_NewSimpleClipOnly')
+        else:
+            api.broken('table', 'BBoxTables.BF_NewSimpleClipOnly', PROPS, "Path::new_simple call sites: %r" % (sites,))
+    except Exception as e:
+        api.broken('table', 'BBoxTables.BF_NewSimpleClipOnly', PROPS, e)
+    names = [n for n, _, _ in FACTS] + ['BF_NewSimpleClipOnly']
     out = [api.HEADER, "From Coq Require Import List.\nImport ListNotations.\n",
            "Inductive bbox_fact :=\n  | " + "\n  | ".join(names) + ".\n",
            "Definition bbox_facts : list bbox_fact := [%s].\n" % "; ".join(found),
